@@ -33,3 +33,22 @@ Definition check_oriented (init : list St) (reversed : bool) (pushes : list St) 
   else if negb (sts_eq (@reverse_inscribed_circles FNum init) rev) then 3%Z
   else if negb (ost_eq (@find_tmax FNum init) tmax) then 4%Z
   else 0%Z.
+
+(* orientation: 0 agree; 100 decision within rounding of its threshold; 5 error status differs; 6 list differs *)
+Definition res_sts_eq (a : res (list St)) (ok : bool) (b : list St) : Z :=
+  match a with
+  | Ok l => if ok then (if sts_eq l b then 0%Z else 6%Z) else 5%Z
+  | _ => if ok then 5%Z else 0%Z
+  end.
+Definition check_orient_dir (dir : F2) (init : list St) (ok : bool) (out : list St) : Z :=
+  match init with
+  | s0 :: _ =>
+      let a := @dot2 FNum dir (s_c s0) in let b := @dot2 FNum dir (s_c (last init s0)) in
+      if f_close a b then 100%Z else res_sts_eq (@direction_fwd FNum dir init) ok out
+  | [] => res_sts_eq (@direction_fwd FNum dir init) ok out
+  end.
+Definition check_orient_tmax (init : list St) (ok : bool) (out : list St) : Z :=
+  match @tmax_fraction FNum init with
+  | Ok f => if f_close f 0.5 then 100%Z else res_sts_eq (@tmax_fwd FNum init) ok out
+  | _ => res_sts_eq (@tmax_fwd FNum init) ok out
+  end.
